@@ -23,9 +23,12 @@ enum kind_t
     k_timed_far,    // wait_until / wait_for with a far deadline, notified early: must not report timeout
     k_stop,         // stop_token wait, request_stop from a task / OS thread
     k_stop_timed,   // stop_token wait_for with a far deadline
+    k_timed_edge,   // T timed waiters with one common deadline + one untimed waiter behind them, ONE notify_one issued at the
+                    // deadline (swept around it): the notification must not vanish (a timed waiter reports no_timeout or the
+                    // untimed waiter wakes)
     k_count
 };
-static char const* const kind_name[] = {"notify_all", "notify_all_pred", "notify_one", "timed_far", "stop", "stop_timed"};
+static char const* const kind_name[] = {"notify_all", "notify_all_pred", "notify_one", "timed_far", "stop", "stop_timed", "timed_edge"};
 
 static std::atomic<std::uint64_t> g_woken{0}, g_rounds_done{0};
 static std::atomic<std::uint64_t> g_kind_done[k_count];
@@ -81,6 +84,11 @@ struct round_t
     int inside = 0;
     bool flag = false;
     std::uint64_t payload = 0;
+    // timed_edge (protected by m)
+    std::chrono::steady_clock::time_point edge_deadline{};
+    int edge_timed_returned = 0, edge_no_timeout = 0;
+    bool edge_notify_issued = false, edge_evaluated = false;
+    int edge_delta_us = 0;
     pika::stop_source src;
     std::atomic<int> woken{0};
     std::atomic<int> notified{0};
@@ -88,6 +96,27 @@ struct round_t
     std::atomic<std::uint64_t> t_notified_ns{0};    // stamp taken after the notification call returned
     rng r{1};
 };
+
+static std::atomic<std::uint64_t> g_edge_consumed_by_timed{0}, g_edge_consumed_by_untimed{0}, g_edge_timeouts{0};
+
+// timed_edge, called with the user lock held once the notification has been issued and again when the last timed waiter
+// has returned: if a timed waiter took the notification (reported no_timeout) the untimed waiter is released by the
+// harness; otherwise the untimed waiter must wake by itself - if it never does the round stays open and the quiescence
+// watchdog reports the lost notification
+template <typename R>
+static void edge_evaluate(R* rd)
+{
+    if (rd->edge_evaluated || !rd->edge_notify_issued || rd->edge_timed_returned != rd->W - 1) return;
+    rd->edge_evaluated = true;
+    if (rd->edge_no_timeout > 0)
+    {
+        g_edge_consumed_by_timed++;
+        rd->flag = true;
+        rd->cv.notify_all();
+    }
+    else
+        g_edge_consumed_by_untimed++;
+}
 
 template <typename R>
 static void notifier(R* rd)
@@ -122,6 +151,24 @@ static void notifier(R* rd)
             rd->notified++;
         }
         break;
+    case k_timed_edge:
+    {
+        // wait (OS-level spin, at most a few ms) until the common deadline plus a swept offset, then ONE notify_one
+        auto at = rd->edge_deadline + std::chrono::microseconds(rd->edge_delta_us);
+        while (std::chrono::steady_clock::now() < at) __builtin_ia32_pause();
+        {
+            std::unique_lock<decltype(rd->m)> lk(rd->m);
+            rd->edge_notify_issued = true;
+            if (rd->notify_under_lock) rd->cv.notify_one();
+        }
+        if (!rd->notify_under_lock) rd->cv.notify_one();
+        rd->notified = rd->W;    // every waiter of the round is provided for: T deadlines and one notification
+        {
+            std::unique_lock<decltype(rd->m)> lk(rd->m);
+            edge_evaluate(rd);
+        }
+        break;
+    }
     case k_stop:
     case k_stop_timed:
         rd->src.request_stop();    // no user lock needed for a stop request
@@ -154,9 +201,34 @@ static void waiter(R* rd, int idx)
     };
     lock_t lk(rd->m);
     std::uint64_t my_gen = rd->gen;
-    if (++rd->registered == rd->W) launch_notifier(rd);
+    if (rd->kind == k_timed_edge)
+    {
+        if (rd->registered == 0) rd->edge_deadline = std::chrono::steady_clock::now() + std::chrono::microseconds(1500 + rd->r.below(2000));
+        ++rd->registered;
+        // the untimed waiter (index W-1) is started by the last timed registrant so that it queues up behind them, and it
+        // starts the notifier
+        if (idx != rd->W - 1 && rd->registered == rd->W - 1) ex::execute(ex::thread_pool_scheduler{}, [rd] { waiter<R, CVT>(rd, rd->W - 1); });
+        if (idx == rd->W - 1) launch_notifier(rd);
+    }
+    else if (++rd->registered == rd->W)
+        launch_notifier(rd);
     switch (rd->kind)
     {
+    case k_timed_edge:
+        if (idx == rd->W - 1)
+        {
+            if (!rd->flag) rd->cv.wait(lk);    // single shot: woken by the round's notify_one, or released by edge_evaluate
+        }
+        else
+        {
+            auto st = rd->cv.wait_until(lk, rd->edge_deadline);
+            if (st == pika::cv_status::no_timeout) rd->edge_no_timeout++;
+            else
+                g_edge_timeouts++;
+            rd->edge_timed_returned++;
+            edge_evaluate(rd);
+        }
+        break;
     case k_all:
         while (rd->gen == my_gen) rd->cv.wait(lk);
         break;
@@ -236,7 +308,9 @@ static bool run(runtime_cfg const& cfg, std::uint64_t rounds, std::uint64_t batc
             for (;;)
             {
                 rd->kind = (int) r.below(k_count);
-                if ((rd->kind == k_timed_far || rd->kind == k_stop_timed) && only == "all" && !r.chance(1, 3)) continue;
+                if ((rd->kind == k_timed_far || rd->kind == k_stop_timed || rd->kind == k_timed_edge) && only == "all" && !r.chance(1, 3)) continue;
+                // the edge scenario needs task waiters (timed waits of plain OS threads: known finding D14) and a task notifier
+                if (rd->kind == k_timed_edge && (std::is_same_v<L, std::mutex> || os_waiters_ok)) continue;
                 if ((rd->kind == k_stop || rd->kind == k_stop_timed) && !std::is_same_v<CV, pika::condition_variable_any>) continue;
                 if (only != "all" && only != kind_name[rd->kind]) continue;
                 // timed waits of plain OS threads are exercised in their own cases (selected with --kind) so that a
@@ -257,13 +331,19 @@ static bool run(runtime_cfg const& cfg, std::uint64_t rounds, std::uint64_t batc
             }
             rd->notify_under_lock = r.chance(1, 3);
             rd->r = rng(g_seed * 17 + all.size());
+            if (rd->kind == k_timed_edge)
+            {
+                rd->W = 3 + (int) r.below(7);    // 2-8 timed waiters + the untimed one
+                rd->os_notifier = false;
+                rd->edge_delta_us = (int) r.below(120) - 40;
+            }
             expect += rd->W;
             all.push_back(std::move(rd));
         }
         for (std::size_t i = base; i < all.size(); ++i)
         {
             R* rd = all[i].get();
-            for (int w = 0; w < rd->W; ++w)
+            for (int w = 0; w < (rd->kind == k_timed_edge ? rd->W - 1 : rd->W); ++w)
             {
                 bool os = os_waiters_ok;
                 if (os)
@@ -367,6 +447,11 @@ int main(int argc, char** argv)
         report.bit("stop_callback_ran", t.hits[pv::stop_dequeued]);
         report.bit("resume_found_target_active", t.hits[pv::sts_active_helper]);
         report.bit("delays", t.delays);
+        report.add("edge_notification_taken_by_timed_waiter", g_edge_consumed_by_timed.load());
+        report.add("edge_notification_taken_by_untimed_waiter", g_edge_consumed_by_untimed.load());
+        report.add("edge_timed_waiters_timed_out", g_edge_timeouts.load());
+        report.bit("edge_notify_hit_timed_waiter", g_edge_consumed_by_timed.load());
+        report.bit("edge_notify_after_all_timed_out", g_edge_consumed_by_untimed.load());
         std::string sig = cfg.describe() + "|" + combo + "|" + profile + "|" + only + "|";
         for (auto& kv : report.bits) sig += kv.second ? "1" : "0";
         report.signature(sig);
